@@ -38,6 +38,8 @@ CONSTANTS Names,        \* producer names (token sequences) a component may have
           Files,        \* file paths below a producer (token sequences; <<>> = no file)
           Methods,      \* reference methods
           Contexts,     \* sequence of package contexts (records, see CtxOK)
+          Priors,       \* indices of contexts of a package that was inspected EARLIER in the same process (0 = none)
+          Leaky,        \* TRUE: the named deviation "inspecting a package leaves its folders reserved" (see InspectOther)
           Emit          \* TRUE: print one JSON case per initial state
 
 NoStage == -1                               \* "None" of the implementation (a cfg/TLC set cannot mix strings and integers)
@@ -83,7 +85,8 @@ PrintRef(r) == (IF r.stage = NoStage THEN <<>> ELSE <<StageWord(r.stage), ".">>)
 (* ParseDataReference: (producer reference, file, method).                                            *)
 (*   exactly one ":"; an absolute path is split at its LAST "/", anything else at its FIRST "/",      *)
 (*   except that a path below a reserved folder is not split at all (file = none).                    *)
-ParseDR(s) ==
+(*   The reserved folders are a PROCESS-WIDE table (FlowIR.SpecialFolders); ...With(.., res) reads it. *)
+ParseDRWith(s, res) ==
   LET k == FirstPos(s, ":")
       body == Before(s, k)
       meth == After(s, k)
@@ -93,9 +96,10 @@ ParseDR(s) ==
      ELSE IF ~Has(body, "/")
        THEN [pref |-> body, file |-> <<>>, method |-> meth[1]]
      ELSE LET j == FirstPos(body, "/") IN
-          IF Before(body, j) \in ReservedSeqs
+          IF Before(body, j) \in res
             THEN [pref |-> body, file |-> <<>>, method |-> meth[1]]
             ELSE [pref |-> Before(body, j), file |-> FileOfText(After(body, j)), method |-> meth[1]]
+ParseDR(s) == ParseDRWith(s, ReservedSeqs)
 Parsable(s) == Count(s, ":") = 1 /\ FirstPos(s, ":") > 1 /\ Len(After(s, FirstPos(s, ":"))) = 1
 
 (* ParseProducerReference(reference, index): (stage, name, hasIndex).                                  *)
@@ -112,11 +116,12 @@ ParsePR(p, idx) ==
 
 (* ParseDataReferenceFull(value, index, application_dependencies, special_folders): the stage is      *)
 (* none for a reference that is not to a component (folders = reserved + app-dep names + top-level)   *)
-ParseFull(s, idx, folders) ==
-  LET d == ParseDR(s)
+ParseFullWith(s, idx, folders, res) ==
+  LET d == ParseDRWith(s, res)
       q == ParsePR(d.pref, idx)
-      direct == (~q.has /\ (q.name \in folders \/ Has(q.name, "/"))) \/ IsVar(q.name)
+      direct == (~q.has /\ (q.name \in folders \cup res \/ Has(q.name, "/"))) \/ IsVar(q.name)
   IN [stage |-> IF direct THEN NoStage ELSE q.stage, prod |-> q.name, file |-> d.file, method |-> d.method]
+ParseFull(s, idx, folders) == ParseFullWith(s, idx, folders, ReservedSeqs)
 
 (* the parts of a string with no context at all (inverse of PrintRef) *)
 ParseAbs(s) == LET d == ParseDR(s)
@@ -170,13 +175,14 @@ Class(s, n, ctx) == IF DirectByStatement(s, ctx) THEN "direct"
 
 (* expand_component_references / expand_potential_component_reference with the folders of the package:*)
 (* a reference that is not direct is rewritten to its absolute spelling, a direct one is left alone.   *)
-Expand(s, n, ctx) ==
-  LET p == ParseFull(s, NoStage, ReservedSeqs)       \* the function first parses without any context
+ExpandWith(s, n, ctx, res) ==
+  LET p == ParseFullWith(s, NoStage, res, res)       \* the function first parses without any context
       maybe == IF p.stage = NoStage THEN n ELSE p.stage
-      direct == (p.stage = NoStage /\ p.prod \in Folders(ctx)) \/ Has(p.prod, "/")
+      direct == (p.stage = NoStage /\ p.prod \in Folders(ctx) \cup res) \/ Has(p.prod, "/")
   IN IF IsVar(p.prod) THEN s
      ELSE IF direct /\ ~KnownIn(ctx, maybe, p.prod) THEN s
      ELSE PrintRef([stage |-> maybe, prod |-> p.prod, file |-> p.file, method |-> p.method])
+Expand(s, n, ctx) == ExpandWith(s, n, ctx, ReservedSeqs)
 
 (* ---------------------------------------------------------------------- *)
 (* Input space: canonical abstract references                               *)
@@ -226,36 +232,53 @@ VARIABLES r,        \* the abstract reference as authored
           text,     \* the reference string (tokens) once written
           parts,    \* result of parsing text in the context
           abs,      \* the expanded string
-          prev      \* the expanded string before the last re-expansion (history variable)
-vars == <<r, n, c, phase, text, parts, abs, prev>>
+          prev,     \* the expanded string before the last re-expansion (history variable)
+          prior,    \* context of a package inspected earlier in this process (0: none) -- the two-step histories
+          process   \* the process-wide table of reserved folders that every parser consults
+vars == <<r, n, c, phase, text, parts, abs, prev, prior, process>>
 Ctx == Contexts[c]   \* (Contexts is a constant: TLC evaluates it once)
 None == <<>>
 
-Init == /\ r \in Refs /\ n \in Stages /\ c \in 1..Len(Contexts)
-        /\ phase = "authored" /\ text = None /\ parts = None /\ abs = None /\ prev = None
+Init == /\ r \in Refs /\ n \in Stages /\ c \in 1..Len(Contexts) /\ prior \in Priors
+        /\ phase = (IF prior = 0 THEN "authored" ELSE "fresh")
+        /\ text = None /\ parts = None /\ abs = None /\ prev = None /\ process = ReservedSeqs
+
+(* Step one of a two-step history: the same process first classifies / expands references of ANOTHER package, *)
+(* passing that package's folders to the functions.  Reads do not write: the process-wide table stays as it    *)
+(* is.  (Leaky = the named deviation: the folders handed to the call are appended to the table for good.)      *)
+InspectOther == /\ phase = "fresh" /\ phase' = "authored"
+                /\ process' = IF Leaky THEN process \cup Folders(Contexts[prior]) ELSE process
+                /\ UNCHANGED <<r, n, c, text, parts, abs, prev, prior>>
 
 Write == /\ phase = "authored" /\ phase' = "written"
          /\ text' = PrintRef(r)
-         /\ UNCHANGED <<r, n, c, parts, abs, prev>>
+         /\ UNCHANGED <<r, n, c, parts, abs, prev, prior, process>>
 Read == /\ phase = "written" /\ phase' = "read"
-        /\ parts' = ParseFull(text, n, Folders(Ctx))
-        /\ UNCHANGED <<r, n, c, text, abs, prev>>
+        /\ parts' = ParseFullWith(text, n, Folders(Ctx), process)
+        /\ UNCHANGED <<r, n, c, text, abs, prev, prior, process>>
 ExpandRef == /\ phase = "read" /\ phase' = "expanded"
-             /\ abs' = Expand(text, n, Ctx)
-             /\ UNCHANGED <<r, n, c, text, parts, prev>>
+             /\ abs' = ExpandWith(text, n, Ctx, process)
+             /\ UNCHANGED <<r, n, c, text, parts, prev, prior, process>>
 (* a later pass expands the already expanded list again, possibly on behalf of another stage *)
 ReExpand(m) == /\ phase = "expanded" /\ phase' = "reexpanded"
-               /\ abs' = Expand(abs, m, Ctx) /\ prev' = abs
-               /\ UNCHANGED <<r, n, c, text, parts>>
-Next == Write \/ Read \/ ExpandRef \/ \E m \in {0, 1, 12} : ReExpand(m)
+               /\ abs' = ExpandWith(abs, m, Ctx, process) /\ prev' = abs
+               /\ UNCHANGED <<r, n, c, text, parts, prior, process>>
+Next == InspectOther \/ Write \/ Read \/ ExpandRef \/ \E m \in {0, 1, 12} : ReExpand(m)
 Stutter == UNCHANGED vars
 Spec == Init /\ [][Next]_vars
 
 (* ---------------------------------------------------------------------- *)
 (* 4. Properties of C09 (each is evaluated in the phase in which its subject is produced; the         *)
 (*    variables written in a phase never change afterwards)                                            *)
-TypeOK == /\ phase \in {"authored", "written", "read", "expanded", "reexpanded"}
+TypeOK == /\ phase \in {"fresh", "authored", "written", "read", "expanded", "reexpanded"} /\ prior \in Priors
           /\ n \in Stages /\ c \in 1..Len(Contexts) /\ r \in Refs
+
+(* Reads do not write: no call changes the process-wide table, and therefore every answer is the pure function *)
+(* of the call's own arguments, whatever the process did before (two-step histories: InspectOther, then this    *)
+(* reference).  PureAnswers is what the deviation Leaky breaks (expected-to-fail run of the driver).             *)
+ReadsDoNotWrite == process = ReservedSeqs
+PureAnswers == /\ (phase \in {"read", "expanded", "reexpanded"} => parts = ParseFull(text, n, Folders(Ctx)))
+               /\ (phase = "expanded" => abs = Expand(text, n, Ctx))
 
 (* "Parsing a data reference and printing the parts gives back the same reference" (both directions) *)
 RoundTrip == phase = "written" =>
@@ -333,7 +356,7 @@ CaseJson ==
        q0 == ParsePR(d.pref, NoStage)
        f == ParseFull(s, n, Folders(Ctx))
        e == Expand(s, n, Ctx)
-   IN [t |-> "case", s |-> s, n |-> n, c |-> c, r |-> r,
+   IN [t |-> "case", s |-> s, n |-> n, c |-> c, r |-> r, prior |-> prior,
        pref |-> d.pref, file |-> d.file, method |-> d.method,
        pstage |-> q.stage, pname |-> q.name, phas |-> q.has, pstage0 |-> q0.stage,
        fstage |-> f.stage, cls |-> Class(s, n, Ctx), expand |-> e,
@@ -341,7 +364,7 @@ CaseJson ==
        relative |-> PrintRef([r EXCEPT !.stage = NoStage]),
        kind |-> IF r.prod \in Names THEN "name" ELSE IF r.prod \in ReservedBodies THEN "reserved"
                 ELSE IF r.prod \in AbsBodies THEN "abspath" ELSE "variable"]
-EmitCase == (Emit /\ phase = "authored") => PrintT(ToJson(CaseJson))
+EmitCase == (Emit /\ phase \in {"authored", "fresh"} /\ text = None) => PrintT(ToJson(CaseJson))
 ASSUME Emit => \A i \in 1..Len(Contexts) : PrintT(ToJson(CtxJson(i)))
 
 (* ---------------------------------------------------------------------- *)
